@@ -10,6 +10,9 @@ Ltac Zify.zify_post_hook ::= Z.div_mod_to_equations.
 Close Scope N_scope.
 Open Scope nat_scope.
 
+Section Extra.
+Variable extra : nat.
+
 Lemma word_past bs wi : nwords (length bs) <= wi -> word bs wi = [].
 Proof.
   intros H. unfold word, nwords in *. rewrite skipn_all2 by lia. apply firstn_nil.
@@ -17,22 +20,22 @@ Qed.
 
 (* whether or not the word exists, the running count grows by the ones of its 64-bit segment *)
 Lemma se256_word_step bs wi r :
-  (if wi <? nwords (length bs) then r + popcount (word bs wi) else r) = r + seg bs (64 * wi) 64.
+  (if wi <? (nwords (length bs) + extra) then r + popcount (word bs wi) else r) = r + seg bs (64 * wi) 64.
 Proof.
-  destruct (Nat.ltb_spec wi (nwords (length bs))) as [Hlt|Hge].
+  destruct (Nat.ltb_spec wi ((nwords (length bs) + extra))) as [Hlt|Hge].
   - rewrite word_count. reflexivity.
-  - rewrite <- word_count, word_past by exact Hge. cbn [popcount count1]. lia.
+  - rewrite <- word_count, word_past by lia. cbn [popcount count1]. lia.
 Qed.
 
 Lemma se256_line_cons bs line j t r :
-  se256_line bs (nwords (length bs)) line (j :: t) r =
-  let '(l2, tot) := se256_line bs (nwords (length bs)) line t (r + seg bs (64 * (line * 4 + j)) 64) in
+  se256_line bs ((nwords (length bs) + extra)) line (j :: t) r =
+  let '(l2, tot) := se256_line bs ((nwords (length bs) + extra)) line t (r + seg bs (64 * (line * 4 + j)) 64) in
   ((r mod 256) :: l2, tot).
 Proof. cbn [se256_line]. unfold WPL256. rewrite se256_word_step. reflexivity. Qed.
 
 Lemma se256_line_unfold bs line :
   let c := fun j => seg bs (256 * line) (64 * j) in
-  se256_line bs (nwords (length bs)) line (seq 0 WPL256) 0 =
+  se256_line bs ((nwords (length bs) + extra)) line (seq 0 WPL256) 0 =
   ([c 0 mod 256; c 1 mod 256; c 2 mod 256; c 3 mod 256], c 4).
 Proof.
   intros c.
@@ -41,14 +44,14 @@ Proof.
     rewrite seg_add. f_equal. f_equal. lia. }
   assert (Hc0 : c 0 = 0) by reflexivity.
   unfold WPL256. cbn [seq].
-  replace (se256_line bs (nwords (length bs)) line [0; 1; 2; 3] 0)
-    with (se256_line bs (nwords (length bs)) line [0; 1; 2; 3] (c 0)) by (rewrite Hc0; reflexivity).
+  replace (se256_line bs ((nwords (length bs) + extra)) line [0; 1; 2; 3] 0)
+    with (se256_line bs ((nwords (length bs) + extra)) line [0; 1; 2; 3] (c 0)) by (rewrite Hc0; reflexivity).
   do 4 (rewrite se256_line_cons, Hc). cbn [se256_line]. reflexivity.
 Qed.
 
 Lemma se256_lines_spec bs : forall n i cum,
   cum = rank1 bs (256 * i) ->
-  let '(lines, total) := se256_lines bs (nwords (length bs)) n i cum in
+  let '(lines, total) := se256_lines bs ((nwords (length bs) + extra)) n i cum in
   length lines = n /\ total = rank1 bs (256 * (i + n)) /\
   forall k, k < n ->
     lev1 (nth k lines dflt256) = rank1 bs (256 * (i + k)) /\
@@ -58,7 +61,7 @@ Proof.
   - split; [reflexivity|]. split; [rewrite Hcum; f_equal; lia|]. intros k Hk. lia.
   - pose proof (se256_line_unfold bs i) as Hl. cbv zeta in Hl. rewrite Hl.
     specialize (IH (S i) (cum + seg bs (256 * i) (64 * 4))).
-    destruct (se256_lines bs (nwords (length bs)) n (S i) (cum + seg bs (256 * i) (64 * 4))) as [rest total].
+    destruct (se256_lines bs ((nwords (length bs) + extra)) n (S i) (cum + seg bs (256 * i) (64 * 4))) as [rest total].
     destruct IH as (Hlen & Htot & Hks).
     { rewrite Hcum. replace (256 * S i) with (256 * i + 64 * 4) by lia. rewrite rank1_seg. reflexivity. }
     split; [cbn [length]; lia|]. split; [rewrite Htot; f_equal; lia|].
@@ -76,9 +79,9 @@ Proof. unfold nlines256, LINE256. split; [|intros]; lia. Qed.
 
 (* everything the proofs need to know about the built structure *)
 Lemma se256_build_spec bs sp0 sp1 :
-  let s := se256_build bs sp0 sp1 in
+  let s := se256_build bs extra sp0 sp1 in
   let nl := nlines256 (length bs) in
-  bits256 s = bs /\ size256 s = length bs /\ nw256 s = nwords (length bs) /\
+  bits256 s = bs /\ size256 s = length bs /\ nw256 s = (nwords (length bs) + extra) /\
   mr1_256 s = count1 bs /\ mr0_256 s = length bs - count1 bs /\
   length (cache256 s) = S nl /\
   (forall i, i <= nl -> lev1 (nth i (cache256 s) dflt256) = rank1 bs (256 * i)) /\
@@ -91,7 +94,7 @@ Lemma se256_build_spec bs sp0 sp1 :
 Proof.
   cbv zeta. unfold se256_build.
   pose proof (se256_lines_spec bs (nlines256 (length bs)) 0 0 eq_refl) as Hb.
-  destruct (se256_lines bs (nwords (length bs)) (nlines256 (length bs)) 0 0) as [lines cum].
+  destruct (se256_lines bs ((nwords (length bs) + extra)) (nlines256 (length bs)) 0 0) as [lines cum].
   destruct Hb as (Hlen & Htot & Hk). cbn [Nat.add] in *.
   pose proof (nlines256_bounds (length bs)) as [Hn1 Hn2].
   assert (Hcum : cum = count1 bs) by (rewrite Htot; apply rank1_all; lia).
@@ -111,7 +114,7 @@ Proof.
 Qed.
 
 Theorem se256_rank1_correct_proof bs sp0 sp1 p :
-  p <= length bs -> se256_rank1 (se256_build bs sp0 sp1) p = Some (rank1 bs p).
+  p <= length bs -> se256_rank1 (se256_build bs extra sp0 sp1) p = Some (rank1 bs p).
 Proof.
   intros Hp. destruct (se256_build_spec bs sp0 sp1) as (Hbits & Hsize & Hnw & _ & _ & Hclen & Hbase & Hrel & Hsent & _).
   pose proof (nlines256_bounds (length bs)) as [Hn1 Hn2].
@@ -123,8 +126,8 @@ Proof.
   assert (Hw : p / 64 = (p / 256) * 4 + p mod 256 / 64) by lia.
   assert (Hwb : (p / 64) mod 4 = p mod 256 / 64) by lia.
   rewrite Hwb.
-  assert (Hword : (if p / 64 <? nwords (length bs) then word bs (p / 64) else []) = word bs (p / 64)).
-  { destruct (Nat.ltb_spec (p / 64) (nwords (length bs))); [reflexivity|]. rewrite word_past by assumption. reflexivity. }
+  assert (Hword : (if p / 64 <? (nwords (length bs) + extra) then word bs (p / 64) else []) = word bs (p / 64)).
+  { destruct (Nat.ltb_spec (p / 64) ((nwords (length bs) + extra))); [reflexivity|]. rewrite word_past by lia. reflexivity. }
   rewrite Hword.
   assert (Htrail : popcount_trail (word bs (p / 64)) (p mod 64) = seg bs (256 * (p / 256) + 64 * (p mod 256 / 64)) (p mod 64)).
   { unfold popcount_trail, word, seg.
@@ -142,31 +145,31 @@ Proof.
 Qed.
 
 Theorem se256_rank0_correct_proof bs sp0 sp1 p :
-  p <= length bs -> se256_rank0 (se256_build bs sp0 sp1) p = Some (rank0 bs p).
+  p <= length bs -> se256_rank0 (se256_build bs extra sp0 sp1) p = Some (rank0 bs p).
 Proof.
   intros Hp. unfold se256_rank0. rewrite se256_rank1_correct_proof by exact Hp.
   pose proof (rank0_rank1 bs p Hp). f_equal. lia.
 Qed.
 
 Theorem se256_rank1_refuses_proof bs sp0 sp1 p :
-  length bs < p -> se256_rank1 (se256_build bs sp0 sp1) p = None.
+  length bs < p -> se256_rank1 (se256_build bs extra sp0 sp1) p = None.
 Proof.
   intros Hp. destruct (se256_build_spec bs sp0 sp1) as (_ & Hsize & _).
   unfold se256_rank1. rewrite Hsize. replace (length bs <? p) with true by (symmetry; apply Nat.ltb_lt; lia). reflexivity.
 Qed.
 
 Theorem se256_get_correct_proof bs sp0 sp1 i :
-  se256_get (se256_build bs sp0 sp1) i = if length bs <=? i then None else Some (nth i bs false).
+  se256_get (se256_build bs extra sp0 sp1) i = if length bs <=? i then None else Some (nth i bs false).
 Proof.
   destruct (se256_build_spec bs sp0 sp1) as (Hbits & Hsize & Hnw & _).
   unfold se256_get. rewrite Hsize, Hnw, Hbits. destruct (Nat.leb_spec (length bs) i) as [|Hlt]; [reflexivity|].
-  replace (i / 64 <? nwords (length bs)) with true by (symmetry; apply Nat.ltb_lt; unfold nwords; lia).
+  replace (i / 64 <? (nwords (length bs) + extra)) with true by (symmetry; apply Nat.ltb_lt; unfold nwords; lia).
   f_equal. unfold word. rewrite nth_firstn by (apply Nat.mod_upper_bound; lia).
   rewrite nth_skipn. f_equal. pose proof (Nat.div_mod i 64). lia.
 Qed.
 
 Theorem se256_count_ones_proof bs sp0 sp1 :
-  mr1_256 (se256_build bs sp0 sp1) = count1 bs /\ size256 (se256_build bs sp0 sp1) = length bs.
+  mr1_256 (se256_build bs extra sp0 sp1) = count1 bs /\ size256 (se256_build bs extra sp0 sp1) = length bs.
 Proof. destruct (se256_build_spec bs sp0 sp1) as (_ & Hsize & _ & Hmr1 & _). split; assumption. Qed.
 
 (* ---- the descending scans ---- *)
@@ -216,11 +219,11 @@ Qed.
 
 (* ---- select1 ---- *)
 Theorem se256_select1_correct_proof bs sp0 sp1 k :
-  se256_select1 (se256_build bs sp0 sp1) k = select1 bs k.
+  se256_select1 (se256_build bs extra sp0 sp1) k = select1 bs k.
 Proof.
   destruct (se256_build_spec bs sp0 sp1) as (Hbits & Hsize & Hnw & Hmr1 & Hmr0 & Hclen & Hbase & Hrel & Hsent & Hs1 & Hs0).
   pose proof (nlines256_bounds (length bs)) as [Hn1 Hn2].
-  set (s := se256_build bs sp0 sp1) in *. set (nl := nlines256 (length bs)) in *.
+  set (s := se256_build bs extra sp0 sp1) in *. set (nl := nlines256 (length bs)) in *.
   unfold se256_select1. rewrite Hmr1.
   destruct (Nat.leb_spec (count1 bs) k) as [Hge|Hlt].
   { destruct (select1 bs k) as [p|] eqn:E; [|reflexivity].
@@ -304,4 +307,4 @@ Proof.
   - rewrite Hrelc by lia. lia.
   - rewrite Hnw. unfold WPL256, nwords. lia.
 Qed.
-
+End Extra.
